@@ -660,6 +660,49 @@ fn no_upstream_case(c: &mut Ctx, fam: &str, idx: u64) {
     }
 }
 
+/// Configuration values at the ends of their ranges (the setters clamp, the arithmetic behind them has to cope with
+/// what they let through): an honest peer, one request, every extreme in turn - the request succeeds.
+fn config_extremes_case(c: &mut Ctx, fam: &str, idx: u64) {
+    let retries = [0u8, 1, 100, 254, 255][(idx % 5) as usize];
+    let read_ms = [1u64, 1000, 3_600_000, u64::MAX / 4][((idx / 5) % 4) as usize];
+    let parallel = [1usize, 2, usize::MAX][((idx / 20) % 3) as usize];
+    let payload = [None, Some(512u16), Some(65535)][((idx / 60) % 3) as usize];
+    let qn = {
+        let l = format!("x{}", idx);
+        let mut v = vec![l.len() as u8];
+        v.extend_from_slice(l.as_bytes());
+        v.extend_from_slice(b"\x04test\x00");
+        v
+    };
+    let mut scripts = HashMap::new();
+    scripts.insert(w::lower(&qn), vec![vec![Act { delay_ms: 0, kind: Kind::Good }]]);
+    let peer = Arc::new(Peer { inner: Mutex::new(PeerInner { seen: vec![], scripts, attempts: HashMap::new(), recent: vec![], sent: BTreeMap::new(), connects: 0, refuse_stream_connects: 0, slow_connect_from: 0, slow_connect_ms: 0, first_seen: HashMap::new() }), rng: Mutex::new(Rng::new(&[c.seed, idx, 17])), pipe: 1 << 16, burst_after: 0 });
+    let rt = tokio::runtime::Builder::new_current_thread().enable_all().start_paused(true).build().unwrap();
+    let peer2 = peer.clone();
+    let qn2 = qn.clone();
+    let ex = json!({"transport": "dgram", "max_retries": retries, "read_timeout_ms": read_ms, "max_parallel": parallel, "udp_payload_size": payload});
+    let res = ctx::catch(|| {
+        rt.block_on(async move {
+            let mut dc = dgram::Config::new();
+            dc.set_max_retries(retries);
+            dc.set_read_timeout(Duration::from_millis(read_ms));
+            dc.set_max_parallel(parallel);
+            dc.set_udp_payload_size(payload);
+            let conn = dgram::Connection::with_config(DgConnect { peer: peer2.clone() }, dc);
+            let mut gr = conn.send_request(mk_request(&qn2));
+            tokio::time::timeout(Duration::from_secs(30), gr.get_response()).await.map(|r| r.map(|m| m.as_slice().to_vec()).map_err(|e| format!("{}", e)))
+        })
+    });
+    drop(rt);
+    c.eval(&("config-extremes", retries, read_ms, parallel, payload));
+    let _ = ctx::take_any_panic().map(|pi| c.violation(&format!("panic:{}", pi.site()), &format!("a task of the datagram transport panicked under an extreme configuration: {} at {}:{}", pi.msg, pi.file, pi.line), c.replay_of(fam, idx, ex.clone())));
+    match res {
+        Err(pi) => c.violation(&format!("panic:{}", pi.site()), &format!("panic in the datagram client transport under an extreme configuration: {} at {}:{}", pi.msg, pi.file, pi.line), c.replay_of(fam, idx, ex)),
+        Ok(Ok(Ok(m))) if w::parse_message(&m).map(|pm| pm.questions.first().map(|q| w::lower(&q.name)) == Some(w::lower(&qn))).unwrap_or(false) => c.count("config_extremes_answered", 1),
+        Ok(other) => c.violation("honest-answer-lost:dgram:extreme-configuration", &format!("an honest peer answers at once, the request ends with {:?}", other.map(|r| r.map(|m| m.len()))), c.replay_of(fam, idx, ex)),
+    }
+}
+
 const TRANSPORTS: [&str; 6] = ["dgram", "stream", "multi_stream", "dgram_stream", "redundant", "load_balancer"];
 
 fn one_case(c: &mut Ctx, fam: &str, idx: u64, threads: bool) {
@@ -1057,6 +1100,10 @@ pub fn run(c: &mut Ctx) {
     for idx in c.cases(fam, total) {
         ctx::slot_write(idx, &format!("{}|case", fam), &[]);
         long_connection_case(c, fam, idx);
+    }
+    let fam = "config-extremes";
+    for idx in c.cases(fam, 180) {
+        config_extremes_case(c, fam, idx);
     }
     let fam = "no-upstream";
     for idx in c.cases(fam, 4) {
